@@ -146,6 +146,17 @@ class DLISFile:
                     f"No Origin defined for the {idx_lf}-th logical file"
                 )
 
+        # an EFLR set belongs to one logical file; a set reached from two of them (same set type and set name
+        # used in both) would be written to both, each copy holding the objects of both logical files
+        set_owners: dict[int, int] = {}
+        for idx_lf, f in enumerate(self.logical_files):
+            for set_dict in f._eflr_sets.values():
+                for eflr_set in set_dict.values():
+                    if eflr_set.n_items and set_owners.setdefault(id(eflr_set), idx_lf) != idx_lf:
+                        raise RuntimeError(
+                            f"{eflr_set} is shared between logical files {set_owners[id(eflr_set)]} and {idx_lf}; "
+                            f"use a different set_name in each logical file")
+
         multi_frame_data_objects: list[list[MultiFrameData]] = []
         frame_items: list[Generator[eflr_types.FrameItem, None, None]] = []
 
